@@ -444,6 +444,12 @@ inductive PrintsItems : Items → List TK → Prop
   | last {e ts} : Prints e .top .none ts → PrintsItems (.cons e .nil) (ts ++ [.rb])
   | cons {e rest ts ts'} : Prints e .top .none ts → PrintsItems rest ts' →
       PrintsItems (.cons e rest) (ts ++ (.comma :: ts'))
+  /-- the comma may be left out before an element that starts with a literal or an identifier
+      (`[1 2]`, `[a "x" true]`): such a token can neither continue the element before it nor does
+      its reading depend on the line it stands on. (Before `(`, `[`, `not` the parser needs a line
+      end, before `-`/`+` it reads a binary operator: those writings are not admitted here.) -/
+  | juxt {e rest ts ts' a tl} : Prints e .top .none ts → PrintsItems rest ts' → ts' = .atom a :: tl →
+      PrintsItems (.cons e rest) (ts ++ ts')
 end
 
 end Spec
